@@ -144,6 +144,8 @@ class Builtins:
 
     def typeof(self, v):
         T = self.types
+        if getattr(v, "ucls", None) is not None:
+            return v.ucls
         if isinstance(v, Obj):
             return v.cls
         if isinstance(v, ClassV):
